@@ -96,7 +96,7 @@ def sha(obj):
     return hashlib.sha1(json.dumps(obj, sort_keys=True, default=repr).encode()).hexdigest()[:12]
 
 
-HEADER = '''From CF Require Import Common.Bytes C14.Model C14.Model_lh C14.Model_misc C14.Model_hist C14.Model_seq.
+HEADER = '''From CF Require Import Common.Bytes C14.Model C14.Model_lh C14.Model_misc C14.Model_hist C14.Model_seq C14.Model_loco.
 From Coq Require Import Ascii.
 Open Scope Z_scope.
 Definition enc_img (o : option (list Z)) : list Z := match o with None => [-1] | Some l => 1 :: l end.
@@ -201,8 +201,17 @@ Definition enc_anchor (a : anchor) : list Z := [a_x a; a_y a; a_z a; b2z (a_vali
 Definition enc_reqs (l : list (Z * Z)) : list Z := Z.of_nat (length l) :: concat (map (fun r => [fst r; snd r]) l).
 Definition enc_loco (o : option (list (Z * Z) * list anchor * bool)) : list Z :=
   match o with None => [-1] | Some (rq, an, v) => b2z v :: enc_reqs rq ++ concat (map enc_anchor an) end.
+Definition enc_l2 (o : option (l2s * list (Z * Z))) : list Z :=
+  match o with
+  | None => [-1]
+  | Some (s, rq) =>
+    [l2_nr s; b2z (l2_idsv s); b2z (l2_actv s); b2z (l2_datav s); l2_cbs s] ++
+    Z.of_nat (length (l2_ids s)) :: l2_ids s ++ Z.of_nat (length (l2_act s)) :: l2_act s ++
+    Z.of_nat (length (l2_data s)) :: concat (map (fun ka => fst ka :: enc_anchor (snd ka)) (l2_data s)) ++ enc_reqs rq
+  end.
+Definition enc_l2trace (l : list (option (l2s * list (Z * Z)))) : list Z := concat (map (fun o => let e := enc_l2 o in Z.of_nat (length e) :: e) l).
 Definition enc_ids (r : idlist_res) : list Z :=
-  match r with IL_Ok l => 1 :: l | IL_IndexError l => 2 :: l | IL_Len => [-2] end.
+  match r with IL_Ok l => 1 :: l | IL_Len => [-2] end.
 Definition enc_loco2 (o : option (list (Z * Z) * list (Z * anchor))) : list Z :=
   match o with None => [-1] | Some (rq, d) => enc_reqs rq ++ concat (map (fun ka => fst ka :: enc_anchor (snd ka)) d) end.
 '''
@@ -3262,10 +3271,205 @@ def seq_oracle(ctx, deep):
     return n, fails
 
 
+
+# ---------------------------------------------------------------------------------------------- anchor-list histories (one object)
+
+def l2_rnd_device(rng, base=None, keep=None):
+    """{'ids': [...<=16], 'act': [...<=16], 'pages': {id: [x, y, z, v]}}; keep: parts of base that stay"""
+    d = {} if base is None else dict({'ids': list(base['ids']), 'act': list(base['act']), 'pages': dict(base['pages'])},
+                                     **({'count': base['count']} if 'count' in base else {}))
+    keep = keep or ()
+    if 'ids' not in keep or base is None:
+        d['ids'] = rng.sample(range(256), rng.choice([0, 1, 2, 4, 4, 8, 16]))
+        if rng.random() < 0.15 and len(d['ids']) >= 2:
+            d['ids'][1] = d['ids'][0]
+        d.pop('count', None)
+        if len(d['ids']) == 16 and rng.random() < 0.5:
+            d['count'] = rng.choice([17, 200, 255])          # a count byte above what the 17 bytes can hold: the 16 ids read are taken
+    if 'act' not in keep or base is None:
+        d['act'] = rng.sample(range(256), rng.choice([0, 1, 3, 16]))
+    # the device has a page for every id that ever occurred in the history (keys are kept, values may change)
+    if base is None:
+        d['pages'] = {}
+    for k in list(d['pages'].keys()) + d['ids']:
+        if k not in d['pages'] or ('pages' not in keep):
+            d['pages'][k] = rnd_anchor(rng)
+    return d
+
+
+def l2_device_bytes(d):
+    mem = bytearray(0x2000 + 0x100 * 256)
+    mem[0:17] = bytes([d.get('count', len(d['ids']))] + d['ids'] + [0] * (16 - len(d['ids'])))
+    mem[0x1000:0x1000 + 17] = bytes([len(d['act'])] + d['act'] + [0] * (16 - len(d['act'])))
+    for k, a in d['pages'].items():
+        mem[0x2000 + 0x100 * int(k):0x2000 + 0x100 * int(k) + 13] = anchor_bytes(*a)
+    return mem
+
+
+def l2_rnd_history(rng):
+    dev = l2_rnd_device(rng)
+    ops = [['setdev', dev]]
+    for _ in range(rng.randrange(3, 10)):
+        r = rng.random()
+        if r < 0.28:
+            ops.append(['ids'])
+        elif r < 0.5:
+            ops.append(['act'])
+        elif r < 0.8:
+            ops.append(['data'])
+        else:
+            keep = rng.choice([(), ('ids',), ('ids', 'act'), ('pages',), ('ids', 'act', 'pages')])
+            dev = l2_rnd_device(rng, base=dev, keep=keep)
+            ops.append(['setdev', dev])
+    return ops
+
+
+def l2_hist_impl(ops):
+    """ONE LocoMemory2 object; snapshot of every public field after every step"""
+    from cflib.crazyflie.mem.loco_memory_2 import LocoMemory2
+    fake = MemFake(bytearray(0x2000 + 0x100 * 256))
+    m = LocoMemory2(id=4, type=0x12, size=len(fake.mem), mem_handler=fake)
+    cbs, obs = [], []
+    for op in ops:
+        r0 = len(fake.reads)
+        exc = None
+        try:
+            if op[0] == 'setdev':
+                fake.mem[:] = l2_device_bytes(op[1])
+            elif op[0] == 'ids':
+                m.update_id_list(lambda x: cbs.append('ids'))
+            elif op[0] == 'act':
+                m.update_active_id_list(lambda x: cbs.append('act'))
+            else:
+                m.update_data(lambda x: cbs.append('data'))
+            fake.run()
+        except Exception as e:  # noqa
+            exc = exc_kind(e)
+            fake.queue[:] = []
+        obs.append({'nr': m.nr_of_anchors, 'idsv': bool(m.ids_valid), 'actv': bool(m.active_ids_valid), 'datav': bool(m.data_valid),
+                    'cbs': len(cbs), 'ids': list(m.anchor_ids), 'act': list(m.active_anchor_ids),
+                    'data': [[k, bits32(a.position[0]), bits32(a.position[1]), bits32(a.position[2]), int(bool(a.is_valid))]
+                             for k, a in m.anchor_data.items()],
+                    'reads': [list(r) for r in fake.reads[r0:]], 'exc': exc})
+    return obs
+
+
+def l2_dev_term(d):
+    idl = [d.get('count', len(d['ids']))] + d['ids'] + [0] * (16 - len(d['ids']))
+    act = [len(d['act'])] + d['act'] + [0] * (16 - len(d['act']))
+    pages = '[' + '; '.join('(%d, %s)' % (int(k), ZL(anchor_bytes(*a))) for k, a in d['pages'].items()) + ']'
+    return '(mk_l2dev %s %s %s)' % (ZL(idl), ZL(act), pages)
+
+
+def l2_hist_term(ops):
+    ts = []
+    for op in ops:
+        ts.append({'ids': 'LIds', 'act': 'LAct', 'data': 'LData'}.get(op[0]) or 'LSetDev %s' % l2_dev_term(op[1]))
+    return 'enc_l2trace (l2_trace l2_init (mk_l2dev [] [] []) [%s])' % '; '.join(ts)
+
+
+def l2_hist_enc(obs):
+    out = []
+    for o in obs:
+        if o['exc']:
+            out += [1, -1]
+            break
+        e = [o['nr'], int(o['idsv']), int(o['actv']), int(o['datav']), o['cbs'], len(o['ids'])] + o['ids'] + [len(o['act'])] + o['act'] \
+            + [len(o['data'])] + [x for a in o['data'] for x in a] + [len(o['reads'])] + [x for r in o['reads'] for x in r]
+        out += [len(e)] + e
+    return out
+
+
+def l2_hist_check(c):
+    """after EVERY step every parsed field equals the decode of the device bytes read by the step that owns the field:
+    anchor_ids / nr_of_anchors / ids_valid <- the last update_id_list; active_anchor_ids <- the last update_active_id_list (emptied by a
+    later update_id_list); anchor_data <- the last update_data (emptied by a later update_id_list); a later fetch never changes an
+    earlier parse"""
+    ops = [[o[0], dict(o[1], pages={int(k): v for k, v in o[1]['pages'].items()})] if o[0] == 'setdev' else list(o) for o in c['ops']]
+    obs = l2_hist_impl(ops)
+    dev = None
+    own = {'ids': [], 'act': [], 'data': {}, 'idsv': False, 'datav': False}
+    for k, (op, o) in enumerate(zip(ops, obs)):
+        if op[0] == 'setdev':
+            dev = op[1]
+        elif op[0] == 'ids':
+            own.update({'ids': list(dev['ids']), 'act': [], 'data': {}, 'idsv': True, 'datav': False})
+        elif op[0] == 'act':
+            own['act'] = list(dev['act'])
+        elif op[0] == 'data' and own['ids']:
+            own['data'] = {i: [i] + [dev['pages'][i][0], dev['pages'][i][1], dev['pages'][i][2], int(dev['pages'][i][3] != 0)] for i in own['ids']}
+            own['datav'] = True
+        got = {'ids': o['ids'], 'act': o['act'], 'data': {a[0]: a for a in o['data']}, 'idsv': o['idsv'], 'datav': o['datav']}
+        want_reads = None
+        if op[0] == 'data' and own['ids']:
+            want_reads = [[0x2000 + 0x100 * i, 13] for i in own['ids']]
+        if o['exc'] or got != own or o['nr'] != len(own['ids']) or (op[0] == 'act' and not o['actv']) or \
+                (want_reads is not None and o['reads'] != want_reads):
+            return {'class': 'loco2_fields_not_owner_read', 'case': c,
+                    'expected': dict(own, step=k, op=op[0], nr=len(own['ids'])),
+                    'observed': {kk: o[kk] for kk in ('nr', 'idsv', 'datav', 'ids', 'act', 'data', 'exc')},
+                    'detail': 'after step %d (%s) every parsed field must still be the decode of the bytes read by the step that owns it' % (k, op[0])}
+    return None
+
+
+def l1_hist_check(c):
+    """LocoMemory: 1-3 update() rounds on one object, the device changing or not; after every round all fields = that device"""
+    from cflib.crazyflie.mem.loco_memory import LocoMemory
+    fake = MemFake(bytearray(0x1000 + 0x100 * 256))
+    m = LocoMemory(id=3, type=0x11, size=len(fake.mem), mem_handler=fake)
+    for k, anchors in enumerate(c['rounds']):
+        mem = bytearray(0x1000 + 0x100 * 256)
+        mem[0] = len(anchors)
+        for j, a in enumerate(anchors):
+            mem[0x1000 + 0x100 * j:0x1000 + 0x100 * j + 13] = anchor_bytes(*a)
+        fake.mem[:] = mem
+        done = []
+        m.update(lambda x: done.append(1))
+        fake.run()
+        got = [[bits32(a.position[0]), bits32(a.position[1]), bits32(a.position[2]), int(bool(a.is_valid))] for a in m.anchor_data]
+        want = [[a[0], a[1], a[2], int(a[3] != 0)] for a in anchors]
+        if got != want or m.nr_of_anchors != len(anchors) or not m.valid or done != [1]:
+            return {'class': 'loco_anchor_list_differs', 'case': c, 'expected': {'round': k, 'anchors': want},
+                    'observed': {'anchors': got, 'nr': m.nr_of_anchors, 'valid': m.valid, 'cb': len(done)}}
+    return None
+
+
+def l2_tie(ctx, cases):
+    rng = ctx.rng
+    n = ctx.scale(60, 800)
+    reg = [['setdev', {'ids': [3, 7, 42, 200], 'act': [3, 7], 'pages': {3: [1, 2, 3, 1], 7: [4, 5, 6, 1], 42: [7, 8, 9, 0], 200: [1, 1, 1, 1]}}],
+           ['ids'], ['act'], ['data'], ['data'], ['act'], ['data']]
+    for i in range(n):
+        ops = l2_rnd_history(rng) if i else reg
+        cases.add('loco2_history', l2_hist_term(ops), l2_hist_enc(l2_hist_impl(ops)), {'loco2_history': repr(ops)[:500]},
+                  nontrivial=sum(1 for o in ops if o[0] == 'data') >= 1)
+    return {'loco2_history': n}
+
+
+def l2_oracle(ctx, deep):
+    rng = ctx.rng
+    fails, n = [], 0
+    for i in range(ctx.scale(300, 3000) * (2 if deep else 1)):
+        if i % 4 != 3:
+            c = {'codec': 'lhist', 'op': 'loco2', 'ops': l2_rnd_history(rng)}
+            r = l2_hist_check(c)
+        else:
+            base = [rnd_anchor(rng) for _ in range(rng.choice([0, 1, 3, 8]))]
+            rounds = [base]
+            for _ in range(rng.randrange(0, 3)):
+                rounds.append(rounds[-1] if rng.random() < 0.4 else [rnd_anchor(rng) for _ in range(rng.choice([0, 1, 2, 5, 9]))])
+            c = {'codec': 'lhist', 'op': 'loco', 'rounds': rounds}
+            r = l1_hist_check(c)
+        n += 1
+        if r:
+            fails.append(r)
+    return n, fails
+
+
 # ---------------------------------------------------------------------------------------------- module interface
 
-SECTIONS_TIE = [('crc', crc_tie), ('i2c', i2c_tie), ('ow', ow_tie), ('lh', lh_tie), ('yaml', yaml_tie), ('deck', deck_tie), ('loco', loco_tie), ('traj', traj_tie), ('timings', timings_tie), ('hist', hist_tie), ('cross', cross_tie), ('whist', whist_tie), ('seq', seq_tie)]
-SECTIONS_ORACLE = [('i2c', i2c_oracle), ('ow', ow_oracle), ('lh', lh_oracle), ('yaml', yaml_oracle), ('deck', deck_oracle), ('loco', loco_oracle), ('misc', misc_oracle), ('hist', hist_oracle), ('cross', cross_oracle), ('whist', whist_oracle), ('seq', seq_oracle)]
+SECTIONS_TIE = [('crc', crc_tie), ('i2c', i2c_tie), ('ow', ow_tie), ('lh', lh_tie), ('yaml', yaml_tie), ('deck', deck_tie), ('loco', loco_tie), ('traj', traj_tie), ('timings', timings_tie), ('hist', hist_tie), ('cross', cross_tie), ('whist', whist_tie), ('seq', seq_tie), ('lhist', l2_tie)]
+SECTIONS_ORACLE = [('i2c', i2c_oracle), ('ow', ow_oracle), ('lh', lh_oracle), ('yaml', yaml_oracle), ('deck', deck_oracle), ('loco', loco_oracle), ('misc', misc_oracle), ('hist', hist_oracle), ('cross', cross_oracle), ('whist', whist_oracle), ('seq', seq_oracle), ('lhist', l2_oracle)]
 
 
 def _corpus():
@@ -3386,5 +3590,7 @@ i2c_hist_check, ow_hist_check = _safe(i2c_hist_check), _safe(ow_hist_check)
 cross_check = _safe(cross_check)
 whist_check = _safe(whist_check)
 seq_check = _safe(seq_check)
+l2_hist_check, l1_hist_check = _safe(l2_hist_check), _safe(l1_hist_check)
 REPLAYERS = {'lh': lambda c, ctx: lh_check(c), 'yaml': lambda c, ctx: yaml_check(c), 'deck': lambda c, ctx: deck_check(c),
-             'loco': lambda c, ctx: loco_check(c), 'misc': lambda c, ctx: misc_check(c), 'cross': lambda c, ctx: cross_check(c), 'whist': lambda c, ctx: whist_check(c), 'seq': lambda c, ctx: seq_check(c)}
+             'loco': lambda c, ctx: loco_check(c), 'misc': lambda c, ctx: misc_check(c), 'cross': lambda c, ctx: cross_check(c), 'whist': lambda c, ctx: whist_check(c), 'seq': lambda c, ctx: seq_check(c),
+             'lhist': lambda c, ctx: (l2_hist_check if c['op'] == 'loco2' else l1_hist_check)(c)}
